@@ -1277,7 +1277,7 @@ class Envelope:
                     "is |0⟩ attempted to be annihilated?"
                 )
             if operation.renormalize:
-                ps = ps / jnp.linalg.norm(ps)
+                ps = ps / jnp.trace(ps)
             self.state = ps.reshape((self.dimensions, self.dimensions))
 
             C = Config()
